@@ -431,7 +431,7 @@ func invoke(input OmegaInput) (output OmegaOutput) {
 	switch c.GetReasonType() {
 	case HOST_CALL:
 		input.VM.Registers[7] = INNERHOST
-		input.VM.Registers[8] = c.GetHostCallIndex()
+		input.VM.Registers[8] = tempHost.Interpreter.HostCallIndex // the full identifier, also beyond 56 bits
 
 	case PAGE_FAULT:
 		input.VM.Registers[7] = INNERFAULT
